@@ -98,7 +98,9 @@ func (k Keeper) CheckAndCloseAtStopLoss(ctx sdk.Context, mtp *types.MTP, pool ty
 			return fmt.Errorf("mtp stop loss price is not <=  token price")
 		}
 	} else {
-		underStopLossPrice := !mtp.StopLossPrice.IsNil() && tradingAssetPrice.GTE(mtp.StopLossPrice)
+		// a zero stop loss price means "not set" (UpdateStopLoss stores it as is): for a short it must not
+		// make every market price count as "at or above the stop loss"
+		underStopLossPrice := !mtp.StopLossPrice.IsNil() && !mtp.StopLossPrice.IsZero() && tradingAssetPrice.GTE(mtp.StopLossPrice)
 		if !underStopLossPrice {
 			return fmt.Errorf("mtp stop loss price is not =>  token price")
 		}
